@@ -20,6 +20,9 @@ def gen_reinsert(rng):
     c = {"kind": "reinsert", "n": n, "indices": idx, "arrays": rng.sample(ARRS, rng.randint(0, len(ARRS))),
          "seed": rng.randint(0, 10**9), "as_array": rng.random() < 0.7}
     r2 = random.Random(c["seed"] ^ 0xC19)
+    if r2.random() < 0.06:
+        c["indices"] = []          # nothing was deleted (what a context holds after a reset): re-inserting nothing changes nothing, for a list and for an array
+        return c
     if r2.random() < 0.3:
         # numpy / ASE index sets may count from the end: the same atoms addressed by negative indices (all, or some of them)
         allneg = r2.random() < 0.5
